@@ -156,10 +156,10 @@ func (e *Env) dump(t *Type, v reflect.Value, sb *strings.Builder) {
 				has := call(v, "Has"+up(f.Name))[0].Bool()
 				if !has {
 					sb.WriteString("~")
-					if e.Raw && f.Type.K == "prim" {
-						// raw mode (C09): the stored value of an absent optional field is what Cmp looks at
-						e.dump(&f.Type, call(v, up(f.Name))[0], sb)
-					} else if e.Raw {
+					if e.Raw {
+						// raw mode (C09): an absent optional field holds no data; since the repair of the
+						// generated Cmp (stored values of absent fields are no longer compared) the value
+						// still stored in the field is not shown
 						sb.WriteString("nil")
 					}
 					continue
@@ -919,6 +919,22 @@ type C09Out struct {
 	Frozen   string   `json:"frozen"`   // "" or what went wrong with Freeze
 }
 
+// diffAt: the part of a around the first position where it differs from b
+func diffAt(a, b string) string {
+	i := 0
+	for i < len(a) && i < len(b) && a[i] == b[i] {
+		i++
+	}
+	lo, hi := i-60, i+60
+	if lo < 0 {
+		lo = 0
+	}
+	if hi > len(a) {
+		hi = len(a)
+	}
+	return fmt.Sprintf("@%d ..%s..", i, a[lo:hi])
+}
+
 func sign(x int) int {
 	if x < 0 {
 		return -1
@@ -1018,8 +1034,8 @@ func (e *Env) RunC09(c *Case) (out *Out) {
 			al := reflect.New(cm.Type().In(0).Elem())
 			cl := addr(cm.Call([]reflect.Value{al})[0])
 			b2 := dump(src)
-			if dump(cl) != b2 || cmp(cl.Interface(), src.Interface()) != 0 {
-				msg += "Clone result differs from source;"
+			if d2 := dump(cl); d2 != b2 || cmp(cl.Interface(), src.Interface()) != 0 {
+				msg += fmt.Sprintf("Clone result differs from source (cmp %d; source %s; clone %s);", cmp(cl.Interface(), src.Interface()), diffAt(b2, d2), diffAt(d2, b2))
 			}
 			e.lastArr = nil
 			e.set(rootT, cl, other, &setOpts{freeze: c.Freeze})
@@ -1072,7 +1088,16 @@ func (e *Env) RunCase(c *Case) (out *Out) {
 					if fz, ok := op["freeze"].(bool); ok {
 						so.freeze = fz
 					}
-					e.set(rootT, rec, op["v"], so)
+					if cp, ok := op["copy"].(bool); ok && cp {
+						// the value is built in a detached record and handed over with CopyFrom
+						e.lastArr = nil
+						tmp := e.newRecord(c.Root)
+						e.set(rootT, tmp, op["v"], so)
+						e.lastArr = nil
+						call(rec, "CopyFrom", tmp)
+					} else {
+						e.set(rootT, rec, op["v"], so)
+					}
 				case "call":
 					e.callOp(rec, op)
 				case "w":
